@@ -102,6 +102,21 @@ def inRom (b : Bus) (a : UInt16) : Bool :=
 def writeByte (b : Bus) (a : UInt16) (v : UInt8) : Bus :=
   if b.inRom a then b else { b with mem := b.mem.setIfInBounds a.toNat v }
 
+/- compiler-only replacement (`@[csimp]`, kernel-checked equal to the definition above): takes the owner of the
+   memory array apart first, so that the array is updated in place instead of being copied -/
+def writeByteFast (b : Bus) (a : UInt16) (v : UInt8) : Bus :=
+  match b with
+  | ⟨mem, rom⟩ =>
+    let blocked := match rom with | none => false | some (s, e) => s ≤ a && a ≤ e
+    if blocked then ⟨mem, rom⟩ else ⟨mem.setIfInBounds a.toNat v, rom⟩
+
+@[csimp] theorem writeByte_eq_fast : @writeByte = @writeByteFast := by
+  funext b a v
+  obtain ⟨mem, rom⟩ := b
+  unfold writeByte writeByteFast inRom
+  cases rom <;> simp
+
+
 /-- `read_word` (little-endian word at `a`, `a+1` wrapping). -/
 def readWord (b : Bus) (a : UInt16) : UInt16 := mkWord (b.readByte (a + 1)) (b.readByte a)
 
